@@ -159,6 +159,7 @@ type RunCtx struct {
 	OpKind     string
 	FragNames  []string
 	MutateArgs bool
+	LogEvents  bool
 }
 
 func samePointer(a, b interface{}) bool {
@@ -400,6 +401,10 @@ func (b *Built) resolver(tn string, fd FieldDef) graphql.FieldResolveFn {
 		if rc.OnCall != nil {
 			rc.OnCall(tn, fd.Name, p)
 		}
+		evPath := strings.Join(call.P, "/")
+		if rc.LogEvents {
+			rc.Event("res:" + evPath)
+		}
 		oc := rc.outcome(tn, fd.Name, srcTag)
 		nat := func() interface{} { return b.naturalValue(fd.Type, srcTag+"."+fd.Name, fd.Name, oc) }
 		switch oc.K {
@@ -421,9 +426,19 @@ func (b *Built) resolver(tn string, fd FieldDef) graphql.FieldResolveFn {
 		case "panics":
 			panic("panic-string " + tn + "." + fd.Name)
 		case "thunk":
-			return func() (interface{}, error) { return nat(), nil }, nil
+			return func() (interface{}, error) {
+				if rc.LogEvents {
+					rc.Event("force:" + evPath)
+				}
+				return nat(), nil
+			}, nil
 		case "thunkerr":
-			return func() (interface{}, error) { return nil, errors.New("thunk boom " + tn + "." + fd.Name) }, nil
+			return func() (interface{}, error) {
+				if rc.LogEvents {
+					rc.Event("force:" + evPath)
+				}
+				return nil, errors.New("thunk boom " + tn + "." + fd.Name)
+			}, nil
 		case "badthunk":
 			return func() int { return 1 }, nil
 		case "wrong":
